@@ -16,8 +16,13 @@ Streams:
      in interleaved order, on circuits related as lossy circuit / Unitary of its U_full / same matrix with other
      heralds / herald on another mode; every observation of every holder is compared with a fresh object that is
      given fresh components with the same values (oracle only: the cache model has one cache per object);
+     the circuit edits include those that change the NUMBER OF LOSS ELEMENTS (loss element, lossy beam splitter /
+     phase shifter, lossy sub-circuit appended in place; circuits of the same modes with 0 / 1 / 2 loss modes
+     assigned): U_full changes its size while modes, heralds and input stay; a rule added in place to the shared
+     PostSelection object is a step as well;
   2. one long-lived Sampler or QuickSampler under a random history (as before, plus in-place extension by a
-     heralded gate);
+     heralded gate, in-place edits that add loss elements, a rule added in place to the QuickSampler's
+     PostSelection object; directed: an observation, a change of the loss count, an observation);
   3. Analyzer probes and histories.
 """
 
@@ -61,6 +66,13 @@ def circuits(rng):
     c.bs(0, 1, reflectivity=0.4)
     c.bs(1, 2, reflectivity=p, loss=0.2)
     fam["lossy"] = c
+    # the plain circuit with ONE loss element: same modes, same heralds, U_full one row / column larger
+    c = lw.Circuit(3)
+    c.bs(0, 1, reflectivity=0.4)
+    c.bs(1, 2, reflectivity=p)
+    c.loss(1, 0.3)
+    c.ps(0, 0.7)
+    fam["lossy1"] = c
     c = lw.Circuit(3)
     sub = lw.Circuit(3)
     sub.bs(0, 1)
@@ -86,6 +98,35 @@ def circuits(rng):
     return fam, p
 
 
+EDITS = ["bs", "ps", "gate", "loss", "bs_loss", "ps_loss", "lossy_sub", "loss"]
+LOSS_EDITS = ["loss", "bs_loss", "ps_loss", "lossy_sub"]
+
+
+def edit_circuit(c, what: str, m: int) -> None:
+    """in-place edits of a circuit object.  'loss', 'bs_loss', 'ps_loss' and 'lossy_sub' add loss elements: U_full grows
+    while n_modes, heralds and input_modes stay the same; 'gate' adds a mode and a herald, input_modes stay the same"""
+    if what == "bs":
+        c.bs(m, m + 1, reflectivity=0.35)
+    elif what == "ps":
+        c.ps(m, 0.4)
+    elif what == "gate":
+        if c.n_modes <= 6:
+            c.add(heralded_gate(), m)
+    elif np.array(c.U_full).shape[0] > 9:
+        return
+    elif what == "loss":
+        c.loss(m, 0.3)
+    elif what == "bs_loss":
+        c.bs(m, m + 1, reflectivity=0.6, loss=0.25)
+    elif what == "ps_loss":
+        c.ps(m, 0.3, loss=0.2)
+    else:
+        sub = lw.Circuit(2)
+        sub.bs(0, 1, reflectivity=0.45, loss=0.15)
+        sub.ps(1, 0.2)
+        c.add(sub, m)
+
+
 def heralded_gate():
     """a block that carries its own ancilla photon: Circuit.add of it leaves input_modes unchanged"""
     g = lw.Unitary(lw.random_unitary(2, seed=7))
@@ -93,6 +134,8 @@ def heralded_gate():
     return g
 
 
+LOSS_COUNT = [("plain", "lossy1"), ("lossy1", "plain"), ("lossy1", "lossy"), ("lossy", "lossy1"), ("plain", "lossy"),
+              ("lossy", "plain"), ("swap", "lossy1")]
 SAME_UFULL = [("idleherald0", "idleherald1"), ("idleherald1", "idleherald0")]
 MOVED_HERALD = [("herald_out0", "herald_out2"), ("herald_out2", "herald_out0"), ("herald_out0", "herald_in0"),
                 ("herald_in0", "herald_out2")]
@@ -101,7 +144,7 @@ MOVED_HERALD = [("herald_out0", "herald_out2"), ("herald_out2", "herald_out0"), 
 def gen_history(ctx: Ctx, rng, kind: str) -> list:
     steps = []
     names = ["idleherald0", "idleherald1", "plain", "lossy", "heralded_sub", "swap", "herald_out0", "herald_out2",
-             "herald_in0"]
+             "herald_in0", "lossy1"]
     inputs = [[1, 0, 0], [1, 1, 0], [0, 1, 1], [2, 0, 0], [0, 0, 0], [1, 1, 1], [1, 0, 1]]
     if rng.random() < 0.35:
         # directed: two circuits with element-wise equal U_full but different herald photons, with an
@@ -122,12 +165,29 @@ def gen_history(ctx: Ctx, rng, kind: str) -> list:
             second = ["sample_N_outputs", 20, sd + 1] if second[0] == "sample_N_inputs" else second
         steps += [["input", rng.choice([[1, 0, 0], [1, 1, 0], [0, 1, 1]])], ["circuit", a], first, ["circuit", b], second]
         ctx.count("directed:herald_moved_between_sampling_calls")
+    elif rng.random() < 0.4:
+        # directed: the NUMBER OF LOSS ELEMENTS changes (U_full changes size) while modes, heralds and input stay:
+        # a loss element / lossy component / lossy sub-circuit appended in place, or a circuit of the same modes
+        # with another loss count assigned - between two observations
+        sd = rng.randrange(1000)
+        obs = [["read"], ["sample", sd], ["sample_N_outputs", 20, sd]]
+        start = rng.choice(["plain", "lossy1", "lossy", "swap", "idleherald1", "heralded_sub", "herald_out0"])
+        steps += [["input", rng.choice([[1, 0, 0], [1, 1, 0], [0, 1, 1], [2, 0, 0]])], ["circuit", start], rng.choice(obs)]
+        if rng.random() < 0.7:
+            steps.append(["mutate_circuit", rng.choice(LOSS_EDITS), rng.randrange(2)])
+            ctx.count("directed:loss_element_added_in_place")
+        else:
+            a, b = rng.choice(LOSS_COUNT)
+            steps[1] = ["circuit", a]
+            steps.append(["circuit", b])
+            ctx.count("directed:same_modes_other_loss_count")
+        steps.append(rng.choice(obs))
     for _ in range(rng.randint(4, ctx.n(10, 14))):
         r = rng.random()
         if r < 0.22:
             steps.append(["circuit", rng.choice(names)])
         elif r < 0.3:
-            steps.append(["mutate_circuit", rng.choice(["bs", "ps", "gate"]), rng.randrange(2)])
+            steps.append(["mutate_circuit", rng.choice(EDITS), rng.randrange(2)])
         elif r < 0.38:
             steps.append(["param", rng.choice([0.1, 0.5, 0.9])])
         elif r < 0.5:
@@ -139,8 +199,11 @@ def gen_history(ctx: Ctx, rng, kind: str) -> list:
             steps.append(["backend", rng.choice(["permanent", "slos"])])
         elif kind == "quick" and r < 0.58:
             steps.append(["post_select", rng.choice([None, [[0], [1]], [[0, 1], [1, 2]], [[2], [0]]])])
-        elif kind == "quick" and r < 0.63:
+        elif kind == "quick" and r < 0.61:
             steps.append(["pnr", rng.random() < 0.5])
+        elif kind == "quick" and r < 0.66:
+            # a further rule added IN PLACE to the PostSelection object that the QuickSampler holds
+            steps.append(["ps_add", rng.choice([[[0], [1]], [[1], [0, 1]], [[2], [0]], [[2], [0, 1]], [[1, 2], [1]]])])
         elif r < 0.8:
             steps.append(["read"])
         elif r < 0.87:
@@ -189,7 +252,14 @@ def same_obs(a, b) -> bool:
 def run_history(ctx: Ctx, kind: str, steps: list) -> list[str]:
     probs: list[str] = []
     fam, p = circuits(None)
-    cur = {"circuit": "plain", "input": [1, 0, 0], "source": [1, 1, 1], "backend": "permanent", "ps": None, "pnr": True}
+    cur = {"circuit": "plain", "input": [1, 0, 0], "source": [1, 1, 1], "backend": "permanent", "ps": None, "pnr": True,
+           "ps_extra": []}
+
+    def fresh_ps():
+        ps = mk_ps(cur["ps"])
+        for x in cur["ps_extra"]:
+            ps.add(tuple(x[0]), tuple(x[1]))
+        return ps
 
     def fresh():
         c = fam[cur["circuit"]]
@@ -198,8 +268,7 @@ def run_history(ctx: Ctx, kind: str, steps: list) -> list[str]:
             return emulator.Sampler(c, lw.State(cur["input"]),
                                     source=emulator.Source(brightness=b, purity=pu, indistinguishability=ind),
                                     backend=cur["backend"])
-        return emulator.QuickSampler(c, lw.State(cur["input"]), photon_counting=cur["pnr"],
-                                     post_select=mk_ps(cur["ps"]))
+        return emulator.QuickSampler(c, lw.State(cur["input"]), photon_counting=cur["pnr"], post_select=fresh_ps())
 
     try:
         obj = fresh()
@@ -213,13 +282,7 @@ def run_history(ctx: Ctx, kind: str, steps: list) -> list[str]:
                 cur["circuit"] = st[1]
             elif op == "mutate_circuit":
                 c = fam[cur["circuit"]]
-                if st[1] == "bs":
-                    c.bs(st[2], st[2] + 1, reflectivity=0.35)
-                elif st[1] == "gate":
-                    if c.n_modes <= 6:
-                        c.add(heralded_gate(), st[2])
-                else:
-                    c.ps(st[2], 0.4)
+                edit_circuit(c, st[1], st[2])
             elif op == "param":
                 p.set(st[1])
             elif op == "input":
@@ -242,7 +305,15 @@ def run_history(ctx: Ctx, kind: str, steps: list) -> list[str]:
                 cur["backend"] = st[1]
             elif op == "post_select":
                 obj.post_select = mk_ps(st[1])
-                cur["ps"] = st[1]
+                cur["ps"], cur["ps_extra"] = st[1], []
+            elif op == "ps_add":
+                if kind == "quick" and cur["ps"] is not None and st[1] not in [cur["ps"], *cur["ps_extra"]]:
+                    try:
+                        obj.post_select.add(tuple(st[1][0]), tuple(st[1][1]))
+                    except ValueError:  # (one rule per mode: refused, the object stays as it is)
+                        ctx.count("quick:ps_add_refused")
+                    else:
+                        cur["ps_extra"] = [*cur["ps_extra"], st[1]]
             elif op == "pnr":
                 obj.photon_counting = st[1]
                 cur["pnr"] = st[1]
@@ -289,7 +360,7 @@ def analyzer_probe(ctx: Ctx, rng) -> None:
 
 def analyzer_histories(ctx: Ctx, rng) -> None:
     """a long-lived Analyzer under circuit / post-selection reassignment vs a fresh Analyzer per call"""
-    names = ["idleherald0", "idleherald1", "plain", "lossy", "heralded_sub", "herald_out0", "herald_out2", "herald_in0"]
+    names = ["idleherald0", "idleherald1", "plain", "lossy", "heralded_sub", "herald_out0", "herald_out2", "herald_in0", "lossy1"]
     rulesets = [None, [[0], [0, 1]], [[1], [1]], [[0, 1], [1, 2]]]
     for _ in range(ctx.n(25, 400)):
         if ctx.out_of_time():
@@ -321,6 +392,10 @@ def analyzer_histories(ctx: Ctx, rng) -> None:
             elif r < 0.68:
                 p.set(rng.choice([0.1, 0.5, 0.9]))
                 hist.append(["param"])
+            elif r < 0.78:
+                what, m = rng.choice(EDITS), rng.randrange(2)
+                edit_circuit(fam[cur["circuit"]], what, m)
+                hist.append(["mutate_circuit", what, m])
             ins = rng.choice([[[1, 0, 0]], [[1, 1, 0]], [[0, 1, 1], [1, 0, 1]], [[1, 0, 0], [0, 0, 1]]])
             withexp = rng.random() < 0.4
             hist.append(["analyze", ins, withexp])
@@ -372,7 +447,7 @@ def analyzer_histories(ctx: Ctx, rng) -> None:
 # A step that does not apply is skipped, so every sub-list is a history.
 
 SH_CIRCUITS = ["idleherald0", "idleherald1", "plain", "lossy", "lossy_dil", "heralded_sub", "swap", "herald_out0",
-               "herald_out2", "herald_in0"]
+               "herald_out2", "herald_in0", "lossy1"]
 SH_INPUTS = [[1, 0, 0], [1, 1, 0], [0, 1, 1], [2, 0, 0], [0, 0, 0], [1, 1, 1], [1, 0, 1]]
 SH_SRC = [[1, 1, 1], [0.8, 1, 1], [1, 0.9, 1], [1, 1, 0.7], [0.9, 0.95, 0.8]]
 SH_DET = [[1, 0, True], [1, 0, False], [0.9, 0, True], [0.85, 0, False], [1, 0.05, True]]
@@ -483,14 +558,9 @@ def run_shared(ctx: Ctx, steps: list) -> list[str]:
                         psrules[json.dumps(st[1])].append(st[2])
                 continue
             if op == "mutate_circuit":
-                c = fam[st[1]]
-                if st[2] == "bs":
-                    c.bs(st[3], st[3] + 1, reflectivity=0.35)
-                elif st[2] == "ps":
-                    c.ps(st[3], 0.4)
-                elif gates.get(st[1], 0) < 2:
-                    gates[st[1]] = gates.get(st[1], 0) + 1
-                    c.add(heralded_gate(), st[3])
+                if st[2] != "gate" or gates.get(st[1], 0) < 2:
+                    gates[st[1]] = gates.get(st[1], 0) + (st[2] == "gate")
+                    edit_circuit(fam[st[1]], st[2], st[3])
                 continue
             if op == "mutate":
                 ref, v = st[1], st[2]
@@ -674,6 +744,19 @@ def _shared_corpus() -> list:
                     ["obs", "S1", "sample_N_outputs", 20, 7, r], ["mutate_ps", r, extra], ["obs", "Q1", "sample", 3], rd("Q1"),
                     ["obs", "A1", "analyze", [[1, 1, 0]], True], ["obs", "S1", "sample_N_outputs", 20, 7, r],
                     ["obs", "S1", "sample_N_inputs", 20, 7, r], ["obs", "Q1", "sample_N_outputs", 20, 1, None]])
+    # the number of loss elements of the circuit that a Sampler, a QuickSampler and an Analyzer hold changes in place
+    # (U_full grows, modes / heralds / input stay), or a circuit of the same modes with another loss count is assigned
+    for cname, what in (("plain", "loss"), ("plain", "bs_loss"), ("lossy1", "loss"), ("lossy", "lossy_sub"), ("swap", "ps_loss"),
+                        ("herald_out0", "loss"), ("idleherald1", "lossy_sub"), ("heralded_sub", "bs_loss")):
+        base = [1, 1, 0]
+        out.append([["new", "Q1", "quick", cname, base, {"pnr": True, "ps": None}], ["new", "S1", "sampler", cname, base, smp("B0")],
+                    ["new", "A1", "analyzer", cname, base, {"ps": None}], rd("Q1"), ["obs", "S1", "sample", 3], ["obs", "A1", "analyze", [base], False],
+                    ["mutate_circuit", cname, what, 0], ["obs", "Q1", "sample", 3], rd("Q1"), ["obs", "A1", "analyze", [base], False], rd("S1"),
+                    ["mutate_circuit", cname, "loss", 1], ["obs", "Q1", "sample_N_outputs", 20, 4, None], ["obs", "S1", "sample_N_inputs", 20, 4, None],
+                    ["obs", "A1", "analyze", [base], True]])
+    for a, b in (("plain", "lossy1"), ("lossy1", "lossy"), ("lossy", "plain"), ("lossy1", "swap")):
+        out.append([["new", "Q1", "quick", a, [1, 1, 0], {"pnr": True, "ps": None}], ["new", "S1", "sampler", a, [1, 1, 0], smp("B0")], rd("Q1"), rd("S1"),
+                    ["set", "Q1", "circuit", b], ["set", "S1", "circuit", b], ["obs", "Q1", "sample", 9], rd("Q1"), rd("S1")])
     for cname in ("plain", "lossy", "herald_out0"):
         out.append([["new", "S1", "sampler", cname, [1, 0, 1], smp("B1")], ["new", "Q1", "quick", cname, [1, 0, 1], {"pnr": True, "ps": None}],
                     ["new", "A1", "analyzer", cname, [1, 0, 1], {"ps": None}], rd("S1"), ["obs", "Q1", "sample", 2],
@@ -690,7 +773,7 @@ def gen_shared(ctx: Ctx, rng) -> list:
     objs: dict = {}
     n_of = {"sampler": 0, "quick": 0, "analyzer": 0}
     # circuits are drawn from a small subset so that holders meet on the same / related circuit objects
-    group = rng.choice([["lossy", "lossy_dil", "plain"], ["idleherald0", "idleherald1", "plain"],
+    group = rng.choice([["lossy", "lossy_dil", "plain"], ["idleherald0", "idleherald1", "plain"], ["plain", "lossy1", "lossy"],
                         ["herald_out0", "herald_out2", "herald_in0"], ["lossy", "lossy_dil", "heralded_sub", "swap"], SH_CIRCUITS])
     base0 = rng.choice(SH_INPUTS[:4])
 
@@ -761,7 +844,7 @@ def gen_shared(ctx: Ctx, rng) -> list:
         elif r < 0.78:
             steps.append(["param", rng.choice([0.1, 0.5, 0.9])])
         elif r < 0.86:
-            steps.append(["mutate_circuit", rng.choice(group), rng.choice(["bs", "ps", "gate"]), rng.randrange(2)])
+            steps.append(["mutate_circuit", rng.choice(group), rng.choice(EDITS), rng.randrange(2)])
         elif r < 0.93:
             steps.append(["mutate_ps", rng.choice(SH_RULES[1:]), rng.choice(SH_RULES[1:])])
         # after every step: look at one or two holders, not necessarily the one that was touched
@@ -795,7 +878,8 @@ def shared_histories(ctx: Ctx, rng) -> None:
 
 def run(ctx: Ctx) -> None:
     ctx.rule = ("random histories (4-14 steps) of circuit reassignment (incl. circuits with equal U_full but different "
-                "herald photons / mode split), in-place circuit edits, Parameter updates, input/source/backend/"
+                "herald photons / mode split, equal modes but another number of loss elements), in-place circuit edits "
+                "(lossless, heralded gate, loss elements added), Parameter updates, input/source/backend/"
                 "post-selection/detector changes, reads and seeded sampling calls on a long-lived Sampler or "
                 "QuickSampler, each observation compared with a fresh object; histories in which several Samplers / "
                 "QuickSamplers / Analyzers share Backend / Source / Detector / PostSelection / circuit objects and are "
